@@ -25,6 +25,8 @@ R09.7  complete outputs: the header, main file and split files are rendered (seq
        defined function appears exactly once across the files, split files are numbered 0.. without gaps and none is empty,
        every function text equals the one of the single-file output, every file passes gcc and clang syntax/type checking on
        its own against the generated header; the worker passes the task fields to the file writer in parameter order
+R09.8  debug names (-g): after the duplicate-name pass no two functions keep the same name (each would get the same assembler label),
+       unique names are kept; decided on every equality pattern of up to 4 names (shared with C10 R10.8)
 R09.6  data-segment embedding neutrality: for modules mixing passive and active segments of different sizes, the blob modes
        (gnu-ld, sectcreate) address segment k at ds + (sum of the sizes of all earlier segments) with the same memory, offset
        and size as the arrays mode uses for d<k>, and the blob writer emits every segment, in order, with its full length
@@ -956,6 +958,7 @@ def run(chk):
     n_w = check_twins(chk, tus)
     c06.check_data_modes(chk, tus, 'R09.6')
     check_worker_call(chk, tu)
+    c10.check_name_dedup(chk, chk.tier, rule='R09.8')
     check_whole_outputs(chk, chk.tier)
     chk.extra['template_pairs'] = n_t
     chk.extra['twin_evaluations'] = n_w
